@@ -3,7 +3,7 @@
    correspondence run of the check); c_pressure / c_loading / convert_* inside them are GENERATED from the source. *)
 From Coq Require Import Reals Lra QArith ZArith String List Bool Sorted.
 From PG Require Import Lib.Num Lib.Py Gen.UnitsGen1 Units.AdsOracle Gen.UnitsGen2 Units.UnitsSpec Units.LoadingPhys Units.C01Theorems
-  Iso.IsoState Gen.IsoGen Iso.IsoSpec Iso.IsoAccess Iso.C03Theorems.
+  Iso.IsoState Gen.IsoGen Iso.IsoSpec Iso.IsoAccess Iso.C03Theorems Iso.InterpScale.
 Import ListNotations.
 Open Scope list_scope.
 Open Scope R_scope.
@@ -59,11 +59,11 @@ Theorem limits_without_bounds_select_all : forall (s : iso RNum) b pu pm r,
   iso_pressure RNum s b pu pm None = Ok r -> iso_pressure RNum s b pu pm (Some (None, None)) = Ok r.
 Proof. exact limits_none_selects_all. Qed.
 Print Assumptions limits_without_bounds_select_all.
-(* `limits and any(limits)`: bounds equal to 0 count as absent, so (0,0) / (None,0) select everything (known finding C03-F2) *)
-Theorem zero_limits_select_everything_refuted : forall xs : list R,
-  select_limits RNum (Some (Some 0, Some 0)) xs = xs /\ select_limits RNum (Some (None, Some 0)) xs = xs.
-Proof. exact limits_all_falsy_select_everything_refuted. Qed.
-Print Assumptions zero_limits_select_everything_refuted.
+(* a bound equal to 0 is a bound (C03-F2, repaired in /repo) *)
+Theorem zero_limits_select_the_points_inside : forall (s : iso RNum) b pu pm,
+  iso_pressure RNum s b pu pm (Some (Some 0, Some 0)) = res_map (filter (between RNum (Some 0) (Some 0))) (iso_pressure RNum s b pu pm None).
+Proof. exact zero_limits_are_limits. Qed.
+Print Assumptions zero_limits_select_the_points_inside.
 
 (* linear interpolation over ANY increasing list of knots *)
 Theorem interpolant_lies_on_the_chord : forall pre p q post fill x,
@@ -94,10 +94,26 @@ Theorem interpolation_commutes_with_rescaling : forall c d (p q : R * R) x, c <>
 Proof. exact chord_scale. Qed.
 Print Assumptions interpolation_commutes_with_rescaling.
 
-(* the branch guess compares a position with a row label: same pressures, different labels, different branches (known finding C03-F3) *)
-Theorem branch_guess_depends_on_row_labels_refuted : split_model 0 [3; 2; 1] <> split_model 1 [3; 2; 1].
-Proof. exact split_depends_on_labels_refuted. Qed.
-Print Assumptions branch_guess_depends_on_row_labels_refuted.
+(* ... and for whole knot lists and query lists: rescaled knots (a unit change of the stored data), rescaled query points and fill
+   values give the rescaled answers and exactly the same refusals: interpolating in foreign units = converting first *)
+Theorem interpolation_of_rescaled_knots : forall c d (k : list (R * R)) f x, 0 < c -> increasing k ->
+  interp_one RNum (scale_knots c d k) (scale_fill d f) (c * x) = res_map (Rmult d) (interp_one RNum k f x).
+Proof. exact interp_scale. Qed.
+Print Assumptions interpolation_of_rescaled_knots.
+Theorem interpolation_of_rescaled_knots_pointwise : forall c d (k : list (R * R)) f xs, 0 < c -> increasing k ->
+  mapM (N:=RNum) (interp_one RNum (scale_knots c d k) (scale_fill d f)) (map (Rmult c) xs)
+  = res_map (map (Rmult d)) (mapM (N:=RNum) (interp_one RNum k f) xs).
+Proof. exact interp_list_scale. Qed.
+Print Assumptions interpolation_of_rescaled_knots_pointwise.
+
+(* the branch guess is a function of the pressure sequence alone (C03-F3, repaired in /repo): shape and the two extreme cases *)
+Theorem branch_guess_depends_only_on_the_pressures : forall ps : list R, ps <> [] ->
+  (split_point ps <= length ps)%nat /\ length (split_model ps) = length ps.
+Proof. exact split_shape. Qed.
+Print Assumptions branch_guess_depends_only_on_the_pressures.
+Theorem branch_guess_extreme_cases : split_model [1; 2; 3] = [false; false; false] /\ split_model [3; 2; 1] = [true; true; true].
+Proof. exact (conj split_maximum_last_is_all_adsorption split_maximum_first_is_all_desorption). Qed.
+Print Assumptions branch_guess_extreme_cases.
 
 Example knots_example : increasing [(1, 10); (2, 20); (4, 30)] /\ interp_one RNum [(1, 10); (2, 20); (4, 30)] (@FNone RNum) 2 = Ok 20.
 Proof.
